@@ -6,6 +6,8 @@ pid, wt = sys.argv[1], sys.argv[2]
 n = int(sys.argv[3]) if len(sys.argv) > 3 else 2
 p = [json.loads(l) for l in open('/verif/properties.jsonl') if json.loads(l)['id'] == pid][0]
 import glob, os
+hint = os.environ.get('ROUND_HINT', '')
+hint = ('\n' + hint + '\n') if hint else ''
 prev = []
 for d in sorted(glob.glob('/verif/seeded/%s-*/' % pid)):
     m = json.load(open(d + 'meta.json'))
@@ -23,7 +25,7 @@ The repository is supposed to satisfy this semantic property:
   Code it is anchored in: {', '.join(p['anchors']['files'])}
 
 YOUR TASK: produce {n} DIFFERENT, realistic changes to the library/example source (not to tests) in {wt}, each of which BREAKS this property while the code still compiles and the repository's existing test suite still passes completely. Each change should look like a plausible slip a maintainer could make (an off-by-one at a boundary, a dropped or misplaced check, a wrong operand, a skipped bookkeeping update, an omitted event or hook, two sites that each look fine alone) — and it should need something specific to manifest: a particular multi-step sequence of operations, an unusual input or boundary value, a particular ordering, a rarely taken branch. Do NOT produce changes that ordinary use would expose at once (e.g. making every transfer fail) and do not make the {n} changes variants of the same idea or touch the same few lines.
-{already}
+{already}{hint}
 
 Environment facts (the sandbox is offline):
 - Always `export RUSTUP_TOOLCHAIN=stable-x86_64-unknown-linux-gnu CARGO_NET_OFFLINE=true` and pass `--offline` to cargo (the repo's rust-toolchain.toml otherwise makes rustup try to download things).
